@@ -121,6 +121,7 @@ func (ex *Exec) fieldVal(st *State, ref *Term, owner *types.Named, f *types.Var)
 		r := subRefTerm(ref, owner, f)
 		if st != nil {
 			ex.assume(st, tImp(tNot(tEq(ref, intLit(0))), tNot(tEq(r, intLit(0)))))
+			ex.assume(st, ex.ptrTypeFact(r, types.NewPointer(f.Type())))
 			if ex.allocates {
 				ex.assume(st, tImp(ex.isAlloc(st, ref), ex.isAlloc(st, r)))
 			}
@@ -142,6 +143,7 @@ func (ex *Exec) fieldVal(st *State, ref *Term, owner *types.Named, f *types.Var)
 		if ex.allocates && v.T.S.Eq(SRef) && !isIntType(f.Type()) {
 			ex.assume(st, tOr(tEq(v.T, intLit(0)), ex.isAlloc(st, v.T)))
 		}
+		ex.assume(st, ex.ptrTypeFact(v.T, f.Type()))
 	}
 	return v
 }
@@ -642,4 +644,26 @@ func (ex *Exec) havocHeap(st *State, node ast.Node) {
 		st.ghost["H:$alloc"] = tv(na, nil)
 		ex.assume(st, &Term{Op: "forall", BVars: []*Term{r}, S: SBool, Args: []*Term{tImp(tSelect(old, r), tSelect(na, r))}})
 	}
+}
+
+// ptrTypeFact: a non-nil pointer of static type *T (T a named struct of the module) has dynamic type *T.
+func (ex *Exec) ptrTypeFact(t *Term, gt types.Type) *Term {
+	if gt == nil {
+		return tTrue
+	}
+	pt, ok := types.Unalias(gt).Underlying().(*types.Pointer)
+	if !ok {
+		return tTrue
+	}
+	if _, isPtrType := types.Unalias(gt).(*types.Pointer); !isPtrType {
+		return tTrue
+	}
+	n := namedOf(pt.Elem())
+	if n == nil {
+		return tTrue
+	}
+	if _, ok := n.Underlying().(*types.Struct); !ok {
+		return tTrue
+	}
+	return tImp(tNot(tEq(t, intLit(0))), tEq(dynType(t), ex.w.typeTag(types.NewPointer(n))))
 }
